@@ -29,12 +29,12 @@ type vInvoice struct {
 }
 
 type vPay struct {
-	payreq  string
-	scid    string
-	limit   uint32
-	height  uint32 // last height answer of the swap's chain before the call
-	heightN int    // how many height answers had been given
-	ok      bool
+	payreq          string
+	scid            string
+	limit           uint32
+	height          uint32 // last height answer of the swap's chain before the call
+	heightN         int    // how many height answers had been given
+	ok              bool
 	validatedBefore bool
 }
 
@@ -42,6 +42,10 @@ type vSend struct {
 	peer    string
 	msgType int
 	payload []byte
+	// what the store held for the (single) swap of the run when the message left
+	recExists    bool
+	recAnchorSet bool
+	recAnchor    uint32
 }
 
 type vWatch struct {
@@ -69,16 +73,16 @@ type vWorld struct {
 	heightCount int
 	heightSeen  bool
 
-	validated     bool // a ValidateTx call returned (true,nil)
-	validatedHex  string
-	validatedPar  OpeningParams
-	openings      int
-	openingParams []OpeningParams
-	spends        []string
-	labels        int
-	suspicious    []string
-	reqswaps      int
-	payAttempts   int
+	validated      bool // a ValidateTx call returned (true,nil)
+	validatedHex   string
+	validatedPar   OpeningParams
+	openings       int
+	openingParams  []OpeningParams
+	spends         []string
+	labels         int
+	suspicious     []string
+	reqswaps       int
+	payAttempts    int
 	maxPayAttempts int
 
 	lastInvoiceMsat     uint64
@@ -105,8 +109,11 @@ type vWorld struct {
 	// a claim payment has settled or may still be outstanding (HTLC offered)
 	payOut bool
 
-	faults, maxFaults int
-	payActionRuns     int
+	faults, maxFaults                             int
+	payActionRuns                                 int
+	lastSpendable, lastReceivable, lastBalance    uint64
+	spendableAsked, receivableAsked, balanceAsked bool
+	narrow                                        *SwapData // when set, height answers are pinned to this swap's start height
 }
 
 func newWorld() *vWorld {
@@ -224,13 +231,17 @@ func (l *vLightning) SpendableMsat(scid string) (uint64, error) {
 	if l.w.fault("spendable.err") {
 		return 0, errors.New("spendable failed")
 	}
-	return zzverif.U64("spendable.msat"), nil
+	v := zzverif.U64("spendable.msat")
+	l.w.lastSpendable, l.w.spendableAsked = v, true
+	return v, nil
 }
 func (l *vLightning) ReceivableMsat(scid string) (uint64, error) {
 	if l.w.fault("receivable.err") {
 		return 0, errors.New("receivable failed")
 	}
-	return zzverif.U64("receivable.msat"), nil
+	v := zzverif.U64("receivable.msat")
+	l.w.lastReceivable, l.w.receivableAsked = v, true
+	return v, nil
 }
 func (l *vLightning) ProbePayment(scid string, amountMsat uint64) (bool, string, error) {
 	l.w.probes = append(l.w.probes, amountMsat)
@@ -260,10 +271,19 @@ func (t *vWatcher) AddWaitForCsvTx(swapID, txID string, vout, startingHeight, cs
 	zzverif.Effect("watch_csv", swapID, txID, vout, startingHeight, csv)
 }
 func (t *vWatcher) AddConfirmationCallback(func(swapId string, txHex string, err error) error) {}
-func (t *vWatcher) AddCsvCallback(func(swapId string) error)                                     {}
+func (t *vWatcher) AddCsvCallback(func(swapId string) error)                                   {}
 func (t *vWatcher) GetBlockHeight() (uint32, error) {
 	if t.w.fault("height.err") {
 		return 0, errors.New("height failed")
+	}
+	if t.w.narrow != nil {
+		// history harnesses: the chain sits at the swap's start height (inside every payment window);
+		// window arithmetic over all heights is the subject of the C04/C05 action harnesses
+		h := t.w.narrow.StartingBlockHeight
+		t.w.lastHeight = h
+		t.w.heightCount++
+		t.w.heightSeen = true
+		return h, nil
 	}
 	h := zzverif.U32("height")
 	t.w.lastHeight = h
@@ -278,7 +298,9 @@ type vValidator struct {
 	csv uint32
 }
 
-func (v *vValidator) TxIdFromHex(txHex string) (string, error) { return zzverif.Str("txidfromhex"), nil }
+func (v *vValidator) TxIdFromHex(txHex string) (string, error) {
+	return zzverif.Str("txidfromhex"), nil
+}
 func (v *vValidator) ValidateTx(swapParams *OpeningParams, txHex string) (bool, error) {
 	zzverif.Effect("validate_tx", txHex)
 	if v.w.fault("validate.err") {
@@ -348,7 +370,7 @@ func (w *vWallet) GetOutputScript(params *OpeningParams) ([]byte, error) {
 	}
 	return zzverif.Bytes("outscript", 34), nil
 }
-func (w *vWallet) NewAddress() (string, error) { return zzverif.Str("newaddr"), nil }
+func (w *vWallet) NewAddress() (string, error)   { return zzverif.Str("newaddr"), nil }
 func (w *vWallet) GetRefundFee() (uint64, error) { return zzverif.U64("refundfee"), nil }
 func (w *vWallet) GetFlatOpeningTXFee() (uint64, error) {
 	if w.w.fault("flatfee.err") {
@@ -364,7 +386,9 @@ func (w *vWallet) GetOnchainBalance() (uint64, error) {
 	if w.w.fault("balance.err") {
 		return 0, errors.New("balance failed")
 	}
-	return zzverif.U64("balance"), nil
+	v := zzverif.U64("balance")
+	w.w.lastBalance, w.w.balanceAsked = v, true
+	return v, nil
 }
 
 // ---------------------------------------------------------------------------------------
@@ -402,7 +426,13 @@ func (p *vPolicy) NewSwapsAllowed() bool         { return p.newSwaps }
 type vMessenger struct{ w *vWorld }
 
 func (m *vMessenger) SendMessage(peerId string, message []byte, messageType int) error {
-	m.w.sends = append(m.w.sends, vSend{peer: peerId, msgType: messageType, payload: message})
+	snd := vSend{peer: peerId, msgType: messageType, payload: message}
+	if m.w.storeRef != nil {
+		for _, r := range m.w.storeRef.recs {
+			snd.recExists, snd.recAnchorSet, snd.recAnchor = true, r.Data.StartingBlockHeightSet, r.Data.StartingBlockHeight
+		}
+	}
+	m.w.sends = append(m.w.sends, snd)
 	zzverif.Effect("send", peerId, messageType)
 	if m.w.fault("send.err") {
 		return errors.New("send failed")
@@ -440,8 +470,8 @@ func (s *vReqStore) Add(id string, reqswap RequestedSwap) error {
 	s.w.reqswaps++
 	return nil
 }
-func (s *vReqStore) GetAll() (map[string][]RequestedSwap, error)      { return nil, nil }
-func (s *vReqStore) Get(id string) ([]RequestedSwap, error)           { return nil, nil }
+func (s *vReqStore) GetAll() (map[string][]RequestedSwap, error) { return nil, nil }
+func (s *vReqStore) Get(id string) ([]RequestedSwap, error)      { return nil, nil }
 
 type vTimeouts struct{ w *vWorld }
 
@@ -607,6 +637,7 @@ type vEnv struct {
 func newEnv(bitcoinEnabled, liquidEnabled bool) *vEnv {
 	w := newWorld()
 	st := &vStore{w: w, recs: map[string]*SwapStateMachine{}}
+	w.storeRef = st
 	pol := newPolicy(w)
 	mm := &vMsgManager{w: w, senders: map[string]messages.StoppableMessenger{}}
 	sv := NewSwapServices(st, &vReqStore{w: w}, &vLightning{w: w}, &vMessenger{w: w}, mm, pol,
